@@ -1,12 +1,12 @@
 SPECIFICATION Spec
 CONSTANTS
-  Starts = {0,1,2,3,4}
-  Gaps = {1,2,3,4,5}
-  PMax = 40
+  Starts = {0,1,2}
+  Gaps = {1,2,3,4}
+  PMax = 36
   MaxLen = 40
   ObsPos = {10,12,16,20,22}
   ObsCard = {2,3}
-  ObsW2 = {7,12}
+  ObsW2 = {7}
   Cond = "uniform"
   Export = FALSE
 INVARIANT BinningCommutes
